@@ -284,3 +284,8 @@ Definition decode_bytes_literal (s : str) : res :=
 (* what value_to_token writes for a str / bytes value (repaired tree: fixed = true) *)
 Definition str_literal_a (printable : cp -> bool) (s : str) : str :=
   if use_triple s then triple_quote_a printable s else py_repr printable s.
+
+(* ---------- writing a literal into a file whose encoding cannot represent every character (F-97): str.encode(encoding, "backslashreplace") ----------
+   enc_ok c: the encoding represents c.  The escape of a character >= 128 is the one of unicode_escape (\xNN, \uNNNN, \UNNNNNNNN). *)
+Definition enc_char (enc_ok : cp -> bool) (c : cp) : str := if enc_ok c then [c] else unicode_escape c.
+Definition encode_text (enc_ok : cp -> bool) (t : str) : str := concat (map (enc_char enc_ok) t).
